@@ -211,6 +211,10 @@ func runSelfTest(repo, verif, prop string) map[string]interface{} {
 	}
 	dirs, _ := filepath.Glob(filepath.Join(verif, "seeded", prop+"-*"))
 	sort.Strings(dirs)
+	// behaviour-preserving refactorings: this property's rules must stay silent on each
+	neutrals, _ := filepath.Glob(filepath.Join(verif, "seeded", "neutral-*"))
+	sort.Strings(neutrals)
+	dirs = append(dirs, neutrals...)
 	out := make([]res, len(dirs))
 	sem := make(chan struct{}, 8)
 	done := make(chan int, len(dirs))
@@ -279,12 +283,22 @@ func runSelfTest(repo, verif, prop string) map[string]interface{} {
 	for range dirs {
 		<-done
 	}
-	det := 0
+	det, nSeed, nNeutral, falseAlarms := 0, 0, 0, 0
 	for _, r := range out {
-		if r.Detected {
-			det++
+		neutral := strings.HasPrefix(r.ID, "neutral-")
+		want := !neutral
+		if neutral {
+			nNeutral++
+			if r.Detected {
+				falseAlarms++
+			}
+		} else {
+			nSeed++
+			if r.Detected {
+				det++
+			}
 		}
-		fmt.Printf("SELFTEST property=%s variant=%s detected=%v rules=%v %s\n", prop, r.ID, r.Detected, r.Rules, r.Note)
+		fmt.Printf("SELFTEST property=%s variant=%s detected=%v expected=%v rules=%v %s\n", prop, r.ID, r.Detected, want, r.Rules, r.Note)
 	}
-	return map[string]interface{}{"seeded_variants": len(out), "detected": det, "results": out}
+	return map[string]interface{}{"seeded_variants": nSeed, "detected": det, "neutral_variants": nNeutral, "neutral_false_alarms": falseAlarms, "results": out}
 }
